@@ -66,11 +66,12 @@ def test_one(prop, patch, psv=None, quiet=False):
         shutil.rmtree(d, ignore_errors=True)
 
 
-def cmd_test(prop, name=None):
+def cmd_test(prop, name=None, jobs=None):
+    from concurrent.futures import ThreadPoolExecutor
     props = [prop]
     if prop == "all":
         props = sorted(os.listdir(os.path.join(VERIF, "mutants")))
-    res = []
+    todo = []
     for p in props:
         d = os.path.join(VERIF, "mutants", p)
         if not os.path.isdir(d):
@@ -78,10 +79,13 @@ def cmd_test(prop, name=None):
         for f in sorted(os.listdir(d)):
             if not f.endswith(".patch") or (name and f != name + ".patch"):
                 continue
-            r = test_one(p, os.path.join(d, f))
-            res.append(r)
-            tag = {True: "KILLED ", False: "MISSED ", None: "SKIPPED"}[r["ok"]]
-            print(f"{tag} {p}/{f}: {r['why']}")
+            todo.append((p, os.path.join(d, f)))
+    jobs = jobs or int(os.environ.get("PSV_JOBS", "6"))
+    with ThreadPoolExecutor(max_workers=jobs) as ex:
+        res = list(ex.map(lambda a: test_one(*a), todo))
+    for (p, f), r in zip(todo, res):
+        tag = {True: "KILLED ", False: "MISSED ", None: "SKIPPED"}[r["ok"]]
+        print(f"{tag} {p}/{os.path.basename(f)}: {r['why']}")
     bad = [r for r in res if r["ok"] is False]
     print(f"{len(res)} mutants, {sum(1 for r in res if r['ok'])} killed, {len(bad)} missed, {sum(1 for r in res if r['ok'] is None)} skipped")
     return res
@@ -94,6 +98,25 @@ if __name__ == "__main__":
         r = test_one(a[1], p)
         print({True: "KILLED", False: "MISSED", None: "SKIPPED"}[r["ok"]], r["why"])
         sys.exit(0 if r["ok"] else 1)
+    elif len(a) == 2 and a[0] == "selftest":
+        # thorough tier: run the property's mutants and merge the result into its evidence file
+        res = cmd_test(a[1])
+        ev = os.path.join(VERIF, "evidence", a[1] + ".json")
+        try:
+            doc = json.load(open(ev))
+            doc["coverage"]["mutant_selftest"] = {
+                "rule": "each committed mutant (one seeded breakage of /repo per patch) is applied to a scratch copy, must type-check, and the named rule must report the named construct",
+                "total": len(res), "killed": sum(1 for r in res if r["ok"]), "missed": [r["patch"] for r in res if r["ok"] is False],
+                "skipped": [r["patch"] for r in res if r["ok"] is None],
+                "results": [{"patch": r["patch"], "killed": r["ok"], "report": r["why"]} for r in res],
+            }
+            json.dump(doc, open(ev, "w"), indent=1)
+        except Exception as e:  # evidence stays as psv wrote it
+            print("SELFTEST: cannot merge into evidence:", e)
+        for r in res:
+            if r["ok"] is False:
+                print("SELFTEST-MISSED:", r["patch"], r["why"])
+        sys.exit(0)
     elif len(a) >= 2 and a[0] == "test":
         res = cmd_test(*a[1:3])
         if "--json" in a:
